@@ -23,7 +23,9 @@ def expected_prefix(full_objs, encs, data, k):
         pos += osz + osz % 4
     n, tot = 0, 0
     for e in encs:
-        if tot + len(e) <= payload:
+        # wholly contained = the objectSize bytes of the object (its alignment padding is not part of it)
+        osz = struct.unpack_from('<I', e, 8)[0] if len(e) >= 12 else len(e)
+        if tot + min(osz, len(e)) <= payload:
             tot += len(e)
             n += 1
         else:
